@@ -465,5 +465,29 @@ pub fn run(ctx: &Ctx) -> Vec<Eng> {
             });
         }
     }
-    vec![e1, e2, e3, e4, e5]
+    let mut eT = Eng::new(
+        "c11-interleaved-twins",
+        "two CommandPID streams (position, velocity, acceleration command) alive at once and fed different histories in lockstep (engine shared with C05): every history of 4 events over {P(1), P(-2), N, E1, FromNone} against 8 partner histories, in both update orders; every update result and get() of each must equal its solo run (state shared between instances breaks this)",
+        "5^4 histories x 8 partners x 2 orders x 3 command kinds",
+    );
+    {
+        let partners: Vec<Vec<usize>> = vec![vec![0, 0, 0, 0], vec![1, 1, 1, 1], vec![0, 1, 0, 1], vec![2, 1, 1, 0], vec![3, 0, 1, 1], vec![1, 2, 0, 0], vec![0, 4, 1, 0], vec![2, 2, 2, 2]];
+        let partners = &partners;
+        for kind in [1usize, 2, 3] {
+            par(&mut eT, 625 * 8 * 2, 64, budget, |idx, e| {
+                let idx = idx as usize;
+                let (ia, ip, swap) = (idx / 16, (idx / 2) % 8, idx % 2 == 1);
+                let mut da = vec![0usize; 4];
+                decode(ia as u64, 5, &mut da);
+                let full: Vec<crate::c05::Ev> = da.iter().map(|&i| crate::c05::SYMS[i]).collect();
+                let part: Vec<crate::c05::Ev> = partners[ip].iter().map(|&i| crate::c05::SYMS[i]).collect();
+                let (ha, hb) = if swap { (part, full) } else { (full, part) };
+                e.executions += 1;
+                e.states += 1;
+                e.nontrivial += 1;
+                e.transitions += crate::c05::twins(kind, &ha, &hb, e);
+            });
+        }
+    }
+    vec![e1, e2, e3, e4, e5, eT]
 }
